@@ -179,8 +179,18 @@ func injectFaults(fresh func() []*doc.Node, emit func(f fault)) {
 		if parent == nil && isMethod(kw) && len(n.Params) > 0 {
 			t := fresh()
 			x, _ := idxOf(t, k)
-			x.Params = nil
-			emit(fault{kind: "missing-path-" + "method", nodes: t, culprits: []*doc.Node{x}, injected: x})
+			// a method without a path directly after a URL block that is not parenthesised is not
+			// faulty: it joins that block
+			joins := false
+			for i, y := range t {
+				if y == x && i > 0 && t[i-1].Kw == "URL" && !t[i-1].Paren {
+					joins = true
+				}
+			}
+			if !joins {
+				x.Params = nil
+				emit(fault{kind: "missing-path-" + "method", nodes: t, culprits: []*doc.Node{x}, injected: x})
+			}
 		}
 		// 6. dangling references
 		refHosts := map[string]bool{"200": true, "201": true, "204": true, "404": true, "500": true, "Request": true, "Body": true}
